@@ -1,5 +1,5 @@
 (* C10 — indentation settings only re-render indentation. Statements only. *)
-From PasfmtVerif Require Import Model.Reconstruct Proofs.ReconstructProofs.
+From PasfmtVerif Require Import Model.Reconstruct Proofs.ReconstructProofs Model.Measure Proofs.MeasureProofs.
 
 Theorem C10_tabs_vs_spaces :
   forall crlf tw ci ind cont, ci * tw <= 255 ->
@@ -20,3 +20,24 @@ Proof. exact expand_tabs_no_tab. Qed.
 Theorem C10_refuted_when_saturated :
   exists tw ci, 255 < ci * tw /\ length (rs_cont (rs_of_config false false tw ci)) = 255%nat /\ (255 mod tw <> 0).
 Proof. exact indentation_units_refuted_saturation. Qed.
+
+(* the wrapper's measure of a line (get_token_line_length) is the column the reconstructor reaches *)
+Theorem C10_measure_is_rendered_col :
+  forall (rs : rsettings) (col : N) (tok : token) (f : fmt) (d : decision),
+  rs_measurable rs = true ->
+  tok_measurable (tok, zero_start1 (apply_decision f d)) = true ->
+  rendered_col rs false col (tok, zero_start1 (apply_decision f d)) =
+  token_line_length rs col d tok (f_sp f).
+Proof. exact measure_is_rendered_col. Qed.
+
+Theorem C10_rendered_cols_are_counter_cols :
+  forall (rs : rsettings) (l : list ftoken) (mb : bool) (col : N),
+  rs_measurable rs = true ->
+  forallb tok_measurable l = true ->
+  breaks_after_sl mb l = true -> rendered_cols rs mb col l = counter_cols rs col l.
+Proof. exact rendered_cols_eq_counter_cols. Qed.
+
+Theorem C10_shipped_settings_measurable :
+  forall (crlf tabs : bool) (tw ci : N), rs_measurable (rs_of_config crlf tabs tw ci) = true.
+Proof. exact rs_of_config_measurable. Qed.
+
